@@ -20,6 +20,7 @@ from slimta.relay.smtp.static import StaticSmtpRelay
 from slimta.smtp.reply import Reply
 
 ID = 'C19'
+REALTIME = True      # runs on the wall clock: an unreproducible failure is re-run before it counts (see runner)
 LEVEL = 'exploration'
 RULE = ('tier A (deterministic): real RelayPool / RelayPoolClient / BlockingDeque with harness-gated client loops and the idle timeout on a '
         'virtual clock; Hypothesis action lists over {attempt(envelope i), release client gate k with deliver / fail / fail-and-exit / crash, '
